@@ -113,7 +113,7 @@ def make_actors(x, worker, converter):
         actor_log(w, f"?{i}", "body-entered-despite-provider-failure")
         return None
 
-    pol = fixed_policy(100.0)
+    pol = fixed_policy(0.0 if getattr(make_actors, "zero_backoff", False) else 100.0)
     worker.actor(job, name="job", queue="q", converter=converter, retry_policy=pol)
     worker.actor(job_dep, name="job_dep", queue="q", converter=converter, retry_policy=pol)
 
@@ -166,6 +166,16 @@ def cells(tier):
     for kind in kinds:
         for a, b in itertools.product(reps, reps):
             out.append(dict(kind=kind, conv="basic", b=[a, b, "return"], max=1, tried=0, recurring=False, store=True))
+    # server timing deviations (one stalled Redis request / one late RabbitMQ completion per run) on
+    # the cells where the retry goes straight back to the normal queue or the disposition races a
+    # redelivery: zero back-off policy, every behaviour, both fake brokers
+    devb = BEHAVIOURS if tier == "thorough" else ["raise_value", "timeout", "retry/plain", "force_retry/plain",
+                                                  "reject/plain", "reschedule/plain", "ack/callback", "return"]
+    for kind in ("redis", "amqp"):
+        for b in devb:
+            for mx, tried in ((1, 0), (1, 1)):
+                out.append(dict(kind=kind, conv="basic", b=[b], max=mx, tried=tried, recurring=False, store=True,
+                                dev=True, zero_backoff=True))
     return out
 
 
@@ -177,7 +187,7 @@ def payload_for(i, b):
     return '{"i":%d,"b":"%s"}' % (i, b)
 
 
-def execute(cell):
+def execute(cell, deviations=None):
     conv = BasicConverter if cell["conv"] == "basic" else PydanticConverter
     bs = cell["b"]
     msgs = []
@@ -191,9 +201,11 @@ def execute(cell):
         ))
 
     def build(x, worker):
+        make_actors.zero_backoff = bool(cell.get("zero_backoff"))
         make_actors(x, worker, conv)
 
     res = run_worker(cell["kind"], build=build, messages=msgs, buckets="results" if cell["store"] else None,
+                     deviations=deviations, server_choices=bool(cell.get("dev")),
                      worker_kw=dict(tasks_limit=2 if len(bs) > 1 else 1000, graceful_shutdown_time=0.5),
                      stop_at={"mem": 0.15, "redis": 0.8, "amqp": 0.3}[cell["kind"]] + (0.1 if len(bs) > 1 else 0))
     viol = []
@@ -234,6 +246,9 @@ def execute(cell):
         if "body-entered-despite-provider-failure" in [e[2] for e in res.actor_events(f"?{i}")]:
             viol.append(("body-entered", f"{mid} ({b}): actor body entered although the dependency provider raised"))
         got = lifecycle.rest_state(res.obs.get(mid, []))
+        if any(e["place"] == "held" for e in res.obs.get(mid, [])):
+            # whatever happened to the delivery, once the worker has returned nothing is in flight
+            viol.append(("left-in-flight", f"{mid} ({b}): still marked in flight after the worker returned"))
         if cut < len(res.log):
             pass  # redelivered and parked afterwards: the final place no longer tells about this delivery
         elif got != rest:
@@ -248,9 +263,19 @@ def jobs(tier):
 
 
 def run_job(job):
+    from ..explore import alternatives
     acc = Acc()
+    todo = []
     for cell in job["cells"]:
-        res, viol, summary = execute(cell)
+        if cell.get("dev") and "deviation" not in cell:
+            base = execute(cell)[0]
+            todo.append((cell, None))
+            for alt in alternatives(base.points, want=lambda l: l.startswith("stall:") or l.startswith("late:")):
+                todo.append((dict(cell, deviation=[alt]), [alt]))
+        else:
+            todo.append((cell, cell.get("deviation")))
+    for cell, dev in todo:
+        res, viol, summary = execute(cell, dev)
         acc.executions += 1
         acc.handles += res.handles
         acc.choice_points += len(cell["b"])
@@ -260,7 +285,7 @@ def run_job(job):
             b = cell["b"][0] if len(cell["b"]) == 1 else "pair"
             cls = b.split("/")[-1] if "/" in b else b
             acc.violations.append(dict(
-                signature=f"{cell['kind']} {sig} {cls}",
+                signature=f"{cell['kind']} {sig} {cls}" + (" +server-deviation" if dev else ""),
                 what=what + f" [cell {cell}]",
                 job=dict(cells=[cell]),
                 detail=dict(summary=summary, exc=res.exc_log[:3]),
